@@ -99,3 +99,5 @@ pub fn verif_array_iter_all<T, const M: usize, F: Fn(&T) -> bool>(s: &[T; M], f:
         r ==> forall|i: int| 0 <= i < M ==> f.ensures((&s[i],), true),
         !r ==> exists|i: int| 0 <= i < M && f.ensures((&s[i],), false),
 { s.iter().all(f) }
+pub assume_specification<T, const N: usize> [<[T; N] as core::convert::AsRef<[T]>>::as_ref](a: &[T; N]) -> (s: &[T])
+    ensures s@ == a@;
